@@ -106,12 +106,20 @@ def print_expr(rng, e, stats=None, ctx_level=0, right=False, top=True):
     if k == "c":
         return [rng.choice(["1'b0", "1'h0"]) if e[1] == 0 else rng.choice(["1'b1", "1'h1"])]
     if k == "tern":
-        return print_expr(rng, e[1], stats, 1, False, False) + ["?"] + print_expr(rng, e[2], stats, 1, False, False) + [":"] + print_expr(rng, e[3], stats, 1, False, False)
+        # the condition is an or-level expression; the arms may be conditionals themselves (right-associative)
+        toks = print_expr(rng, e[1], stats, 1, False, False) + ["?"] + print_expr(rng, e[2], stats, 0, False, False) + [":"] + print_expr(rng, e[3], stats, 0, False, False)
+        if ctx_level > 0 or (not top and rng.random() < 0.3):
+            return ["("] + toks + [")"]
+        return toks
     if k == "not":
         sub = e[2]
         inner = print_expr(rng, sub, stats, 0, False, False)
         if sub[0] in ("id", "c"):
             body = inner if inner[0] != "(" and rng.random() < 0.85 else (inner if inner[0] == "(" else ["("] + inner + [")"])
+        elif sub[0] == "not" and rng.random() < 0.6:
+            body = print_expr(rng, sub, stats, 4, False, True)  # `~~a`, `!~a`: a unary operator on a unary expression
+            if stats is not None:
+                stats["stacked_unary"] = stats.get("stacked_unary", 0) + 1
         else:
             body = ["("] + print_expr(rng, sub, stats, 1, False, False) + [")"]
         toks = [e[1]] + body
@@ -280,6 +288,22 @@ def gen_netlist(rng, mode="full", max_stmts=10, max_inputs=5, depth=4, lookalike
                     e = ["tern", rand_expr(rng, nets, 2, stats), rand_expr(rng, nets, 2, stats), rand_expr(rng, nets, 2, stats)]
                     if stats is not None:
                         stats["tern"] = stats.get("tern", 0) + 1
+                    r_ = rng.random()
+                    if r_ < 0.35:
+                        # a conditional inside a conditional (either arm), or as an operand of another operator
+                        inner = ["tern", rand_expr(rng, nets, 1, stats), rand_expr(rng, nets, 1, stats), rand_expr(rng, nets, 1, stats)]
+                        form = rng.choice(["else_arm", "then_arm", "operand", "negated"])
+                        if form == "else_arm":
+                            e[3] = inner
+                        elif form == "then_arm":
+                            e[2] = inner
+                        elif form == "operand":
+                            e = [rng.choice(["and", "or", "xor"]), None, e, ["id", rng.choice(nets)]]
+                            e[1] = SYMS[e[0]][0]
+                        else:
+                            e = ["not", rng.choice(SYMS["not"]), e]
+                        if stats is not None:
+                            stats["nested_tern"] = stats.get("nested_tern", 0) + 1
                 if rng.random() < 0.2 and stmts:
                     # repeat a sub-expression used before
                     prev = [a[1] for s in stmts if s["k"] == "assign" for a in s["assigns"] if a[1][0] not in ("id", "c", "tern")]
